@@ -121,7 +121,15 @@ fn replay_file(path: &Path) -> Result<ReplayOutcome, String> {
     db::clear_panics();
     let mut env = ctx.env(false);
     env.replay = true;
-    match (entry.replay)(&sub, &v["case"], &mut env) {
+    let outcome = if sub == "sql_expect" {
+        match serde_json::from_value::<qgen::SqlExpect>(v["case"].clone()) {
+            Ok(c) => qgen::check_sql_expect(&c),
+            Err(e) => Err(props::bad_case(e)),
+        }
+    } else {
+        (entry.replay)(&sub, &v["case"], &mut env)
+    };
+    match outcome {
         Ok(()) => Ok(ReplayOutcome::Pass),
         Err(f) => {
             if f.kind == "invalid" {
